@@ -198,6 +198,7 @@ func (sc *SendCase[T]) unregister() {
 // completeG marks the parked goroutine g as having completed its case idx through a
 // rendezvous performed by its partner.
 func completeG(g *G, idx int) {
+	S.hbPartner(g)
 	g.selIdx = idx
 	for _, w := range g.cases {
 		w.unregister()
